@@ -1481,13 +1481,15 @@ fn gen_c18_case(r: &mut Rng, stats: &mut HashMap<String, usize>) -> (String, Vec
             failing.push(format!("freshg {q0};"));
         }
     }
+    // (statements around the late classical register `lt` are not re-used: its declaration may or may not be in the session)
+    let reusable = |s: &String| !s.contains("lt[") && !s.contains("(lt==");
     for s in p.stmts.iter().chain(p2.stmts.iter()).take(npre) {
-        if p.stmts.contains(s) {
+        if p.stmts.contains(s) && reusable(s) {
             failing.push(s.clone());
         }
     }
     failing.push(bad);
-    failing.extend(p.stmts.iter().take(r.below(3)).cloned());
+    failing.extend(p.stmts.iter().filter(|s| reusable(s)).take(r.below(3)).cloned());
     *stats.entry(format!("plant.{variant}")).or_default() += 1;
     *stats.entry(format!("prefix.{}", failing.len() - 1)).or_default() += 1;
     let cont: Vec<String> = p.stmts[ns..].to_vec();
@@ -1534,8 +1536,27 @@ fn gen_fuzz_case(r: &mut Rng, stats: &mut HashMap<String, usize>) -> (String, Ve
     let mut all = p.decls.clone();
     all.extend(p.stmts.clone());
     let mut src = join_src(&all);
-    let kind = r.below(12);
+    let kind = r.below(13);
     let label = match kind {
+        12 => {
+            // operands that repeat a qubit (directly, through a whole register + one of its bits, through a user gate):
+            // the arity / overlap checks must refuse them with an error value before any constructor is reached
+            let q = p.env.qubits();
+            let (q0, qn) = (q[0].clone(), p.env.qregs[0].0.clone());
+            let g = *r.pick(&["swap", "sqrt_swap", "i_swap", "sqrt_i_swap", "rxx(0.4)", "ryy(0.4)", "rzz(0.4)", "cswap", "ccx", "cu3(1,2,3)", "crz(0.5)"][..]);
+            let ops = match r.below(4) {
+                0 => format!("{q0},{q0}"),
+                1 => format!("{qn},{q0}"),
+                2 => format!("{q0},{qn}"),
+                _ => format!("{q0},{q0},{q0}"),
+            };
+            src = if r.chance(1, 3) {
+                format!("{src}\ngate dupo a,b {{ {g} a,b; }}\ndupo {q0},{q0};")
+            } else {
+                format!("{src}\n{g} {ops};")
+            };
+            "dup-operand"
+        }
         0 => {
             // token-level: drop / duplicate / swap whitespace-separated pieces
             let mut toks: Vec<String> = src.split_inclusive(|c: char| c == ' ' || c == ';' || c == ',').map(|s| s.to_string()).collect();
